@@ -276,14 +276,20 @@ pub fn parse_filesize(s: &str) -> Option<u64> {
         };
     }
 
-    if length > 1 && string.ends_with("b") {
-        return match &string[..(length - 1)].parse::<u64>() {
-            Ok(size) => Some(size * 1),
-            _ => None,
-        };
-    }
+    // a number of bytes may be written with a fraction like any other size (`2.0`, `1.5b`):
+    // it is cut to whole bytes, as `1.0005k` is
+    let number = match length > 1 && string.ends_with("b") {
+        true => &string[..(length - 1)],
+        false => string.as_str(),
+    };
 
-    string.parse::<u64>().ok()
+    match number.parse::<u64>() {
+        Ok(size) => Some(size),
+        _ => match number.parse::<f64>() {
+            Ok(size) if size.is_finite() && size >= 0.0 => Some(size as u64),
+            _ => None,
+        },
+    }
 }
 
 static FILE_SIZE_FORMAT_REGEX: LazyLock<Regex> = LazyLock::new(|| {
